@@ -484,10 +484,14 @@ pub fn plan_for(property: &str, seed: u64) -> Plan {
             plan.time_cap_us = plan.time_cap_us * 4 + end;
             // one rule per run, enumerated by seed so that the catalogue is covered completely
             let kinds: Vec<ByzKind> = vec![
-                ByzKind::StreamBeyondStreamCredit { delta: 0 },
-                ByzKind::StreamBeyondStreamCredit { delta: 1 << 20 },
-                ByzKind::StreamBeyondConnCredit { delta: 0 },
-                ByzKind::StreamBeyondConnCredit { delta: 1 << 30 },
+                ByzKind::StreamBeyondStreamCredit { delta: 0, empty_fin: false },
+                ByzKind::StreamBeyondStreamCredit { delta: 1 << 20, empty_fin: false },
+                ByzKind::StreamBeyondConnCredit { delta: 0, empty_fin: false },
+                ByzKind::StreamBeyondConnCredit { delta: 1 << 30, empty_fin: false },
+                ByzKind::StreamBeyondStreamCredit { delta: 0, empty_fin: true },
+                ByzKind::StreamBeyondStreamCredit { delta: 1 << 16, empty_fin: true },
+                ByzKind::StreamBeyondConnCredit { delta: 0, empty_fin: true },
+                ByzKind::StreamBeyondConnCredit { delta: 1 << 24, empty_fin: true },
                 ByzKind::StreamAtMaxOffset,
                 ByzKind::StreamIdBeyondLimit { bidi: true, by: 0 },
                 ByzKind::StreamIdBeyondLimit { bidi: false, by: 0 },
